@@ -25,6 +25,30 @@ ProjBad(p, c, tag) ==
   ELSE IF p.nlin # x.nlin \/ p.nnl # x.nnl THEN tag \o "constraint_arrays_not_broadcast"
   ELSE "ok"
 
+ObsBoundQ(o, b) == IF b.inf = 1 THEN o.k = "inf" /\ o.n = 1 ELSE IF b.inf = -1 THEN o.k = "inf" /\ o.n = -1 ELSE ObsEq(o, b.q)
+\* a projection of a validation with the variable transform in the context
+ScaledBad(p, c, tag) ==
+  LET x == ScaledCanon(c) IN
+  IF ~p.accepted THEN tag \o "rejected"
+  ELSE IF Len(p.rw) # c.R \/ \E r \in 1..c.R : ~ObsEq(p.rw[r], x.rw[r]) THEN tag \o "realization_weights_not_normalized"
+  ELSE IF p.rms # x.rms \/ p.pms # x.pms THEN tag \o "thresholds_not_clamped"
+  ELSE IF Len(p.lb) # c.V \/ Len(p.ub) # c.V THEN tag \o "bounds_not_broadcast"
+  ELSE IF \E v \in 1..c.V : ~ObsBoundQ(p.lb[v], x.lb[v]) \/ ~ObsBoundQ(p.ub[v], x.ub[v]) THEN tag \o "bounds_not_in_the_optimizer_domain"
+  ELSE IF p.mask # x.mask THEN tag \o "mask_not_broadcast"
+  ELSE IF Len(p.magn) # c.V THEN tag \o "magnitudes_not_broadcast"
+  ELSE IF \E v \in 1..c.V : ~ObsEq(p.magn[v], x.magn[v]) THEN tag \o "perturbation_magnitudes_differ"
+  ELSE IF p.nlin # x.nlin \/ p.nnl # x.nnl THEN tag \o "constraint_arrays_not_broadcast"
+  ELSE "ok"
+CheckScaled(e, c) ==
+  IF ~e.tf.done THEN "ok"
+  ELSE IF ScaledBad(e.tf.first, c, "transformed_") # "ok" THEN ScaledBad(e.tf.first, c, "transformed_")
+  ELSE IF ScaledBad(e.tf.route, c, "transformed_after_plain_validation_") # "ok" THEN ScaledBad(e.tf.route, c, "transformed_after_plain_validation_")
+  ELSE IF ScaledBad(e.tf.objects, c, "transformed_from_validated_parts_") # "ok" THEN ScaledBad(e.tf.objects, c, "transformed_from_validated_parts_")
+  ELSE IF ScaledBad(e.tf.objects2, c, "transformed_from_validated_parts_again_") # "ok" THEN ScaledBad(e.tf.objects2, c, "transformed_from_validated_parts_again_")
+  ELSE IF ~e.tf.parts_unchanged THEN "validation_modified_a_validated_object_of_the_caller"
+  ELSE IF \E i \in 1..Len(e.tf.mutations) : ~e.tf.mutations[i].rejected THEN "mutation_accepted_after_transformed_validation"
+  ELSE "ok"
+
 Check(e) ==
   LET c == Scen(e) IN
   IF Rejected(c) THEN (IF e.accepted THEN "inconsistent_configuration_accepted" ELSE "ok")
@@ -34,7 +58,7 @@ Check(e) ==
   ELSE IF ProjBad(e.again, c, "revalidated_") # "ok" THEN ProjBad(e.again, c, "revalidated_")
   ELSE IF ~e.sameobject THEN "validating_the_object_changed_it"
   ELSE IF \E i \in 1..Len(e.mutations) : ~e.mutations[i].rejected THEN "mutation_accepted"
-  ELSE "ok"
+  ELSE CheckScaled(e, c)
 
 Init == tid \in 1..Len(Traces) /\ l = 1 /\ verdict = "ok"
 Next == /\ verdict = "ok" /\ l <= Len(Traces[tid])
